@@ -7,7 +7,7 @@ import re
 
 from ..effprops import engine, site_loc
 from ..index import AnalysisError, dotted, function_stmts, walk_no_nested
-from ..util import callee_last, calls_in, kw, txt
+from ..util import callee_last, calls_in, kw, path_condition, show_condition, txt
 from .c12 import _dict_keys, _returned_dicts
 from .c15 import _ctor_params
 from .c19 import ALIASES
@@ -25,7 +25,7 @@ EXPLANATION = (
     "time; verdict equality on data."
 )
 LEVEL_RULE = "one obligation per twin pair / config option / dispatch key / field attribute / write site"
-FLOORS = {"R1": 4, "R2": 12, "R3": 16, "R4": 14, "R5": 1}
+FLOORS = {"R1": 4, "R2": 12, "R3": 16, "R4": 14, "R5": 1, "R6": 1, "R7": 1}
 
 MODEL = "pandera/api/dataframe/model.py::DataFrameModel"
 MC = "pandera/api/dataframe/model_components.py"
@@ -268,7 +268,66 @@ def r5_hidden_state(ctx):
                "changes what its parents build", site_loc(d["eff"]))
 
 
+def r6_declaration_order(ctx):
+    """Columns come out in the order the annotations were declared: the loop that fills the mapping returned by
+    _collect_fields ranges over the type hints, not over the merged class attributes."""
+    from ..flow import FlowExpander
+    from ..cfg import cfg_of
+    model = ctx.ix.cls(MODEL)
+    f = model.method("_collect_fields")
+    if f is None:
+        raise AnalysisError("_collect_fields missing")
+    ctx.touched(f)
+    fx = FlowExpander(f.node)
+    returned = {s.value.id for s in function_stmts(f) if isinstance(s, ast.Return) and isinstance(s.value, ast.Name)}
+    n = 0
+    for loop in [s for s in function_stmts(f) if isinstance(s, ast.For)]:
+        stores = [s for s in ast.walk(loop) if isinstance(s, ast.Assign) and isinstance(s.targets[0], ast.Subscript)
+                  and isinstance(s.targets[0].value, ast.Name) and s.targets[0].value.id in returned]
+        if not stores:
+            continue
+        n += 1
+        it = fx.expand_at(fx.by_ast[id(loop)], loop.iter) if id(loop) in fx.by_ast else loop.iter
+        ok = any(isinstance(c, ast.Call) and callee_last(c) == "get_type_hints" for c in ast.walk(it))
+        ctx.ob("R6", f, "fields are collected in annotation (declaration) order", ok,
+               f"the filling loop ranges over `{txt(it)[:70]}`" if ok else
+               f"the loop that fills the field mapping ranges over `{txt(loop.iter)}` (expanded: `{txt(it)[:60]}`), not over the type hints: fields assigned "
+               "explicitly and fields with a bare annotation come out in attribute order, so the column order of the schema (ordered=True, "
+               "column order of outputs) differs from the declaration order", f.loc(loop))
+    if n == 0:
+        raise AnalysisError("_collect_fields: no loop fills the returned mapping")
+
+
+def r7_own_namespace(ctx):
+    """A subclass that re-declares a field with a bare annotation gets a fresh Field: the `omitted` test looks at the
+    class's own namespace (cls.__dict__), not at inherited attributes."""
+    from ..cfg import cfg_of
+    model = ctx.ix.cls(MODEL)
+    f = model.method("__init_subclass__")
+    if f is None:
+        raise AnalysisError("DataFrameModel.__init_subclass__ missing")
+    ctx.touched(f)
+    cfg = cfg_of(f.node)
+    cls_name = f.positional[0]
+    sets = [s for s in function_stmts(f) if isinstance(s, ast.Expr) and isinstance(s.value, ast.Call) and callee_last(s.value) == "setattr"
+            and s.value.args and txt(s.value.args[0]) == cls_name]
+    if not sets:
+        raise AnalysisError("__init_subclass__: no setattr(cls, <field>, Field()) found")
+    for s in sets:
+        fld = txt(s.value.args[1]) if len(s.value.args) > 1 else "?"
+        pc = path_condition(cfg, cfg.node_of(s).id, keep=lambda t, n: fld in t and ("__dict__" in t or "hasattr" in t or "getattr" in t or "dir(" in t))
+        own = f"{fld} in {cls_name}.__dict__"
+        ok = pc[0] == (own,) and pc[1] == frozenset({(False,)})
+        ctx.ob("R7", f, "an omitted Field is detected in the class's own namespace", ok,
+               f"fresh Field() installed exactly when `{fld} not in {cls_name}.__dict__`" if ok else
+               f"the fresh Field() is installed under {show_condition(pc)}: a test that also sees inherited attributes (hasattr/getattr) makes a "
+               "bare re-declaration in a subclass inherit the parent's Field options (checks, nullable, alias) instead of starting from Field()",
+               f.loc(s))
+
+
 def run(ctx):
+    r6_declaration_order(ctx)
+    r7_own_namespace(ctx)
     r1_twins(ctx)
     r2_config(ctx)
     r3_dispatch(ctx)
